@@ -7,4 +7,4 @@ CONSTANTS
   TxMode = TRUE
   Dev = {"putback_reuses_unclean", "copydone_single_recv", "copydone_no_copy_check", "set_in_tx_not_marked"}
   MaxMsgs = 3
-INVARIANTS TypeOK ExclusiveHold CleanHandoff IdleIsClean Bounded NoLeak MapSound BeliefSound HoldsOnlyInTx
+INVARIANTS TypeOK ExclusiveHold CleanHandoff IdleIsClean Bounded NoLeak MapSound MapComplete BeliefSound HoldsOnlyInTx
